@@ -138,7 +138,7 @@ func (kc *Cache[V]) WouldPut(key []byte) bool {
 	for ; i >= 0; i-- {
 		b := kc.buckets[i]
 		// if there is something to evict, return true
-		if b.len() < kc.minPerBucket {
+		if b.len() > kc.minPerBucket {
 			return true
 		}
 	}
